@@ -211,8 +211,12 @@ Step ==
             /\ st' = (Rest \o << <<ind, m, 0, nd.a>> >>) \o kids(m, ind)
             /\ UNCHANGED <<col, used>>
        [] nd.k = "fc" ->                                                 \* C04.choice
-            /\ st' = Append(Rest, <<ind, m, IF m = FLAT THEN nd.c[2] ELSE nd.c[1], 1>>)
-            /\ UNCHANGED <<col, pos, used>>
+            \* (relaxed only) once a hardline was emitted inside a flat group the
+            \* engine's modes are unreliable: an always_break hoisted through a concat
+            \* also breaks the siblings that follow it inside the "flat" group
+            \E b \in (IF m = BREAK THEN {1} ELSE IF ~Strict /\ HLF \in used THEN {1, 2} ELSE {2}) :
+              /\ st' = Append(Rest, <<ind, m, nd.c[b], 1>>)
+              /\ UNCHANGED <<col, pos, used>>
        [] nd.k = "ab" ->                                                 \* C04.forced
             /\ m = BREAK \/ (~Strict /\ HLF \in used)
             /\ st' = Rest \o kids(BREAK, ind) /\ UNCHANGED <<col, pos, used>>
